@@ -385,9 +385,9 @@ V4 = {
     'quick': ['127.0.0.1', '169.254.169.254', '10.0.0.5', '93.184.216.34',
               '128.0.0.1'],
     'thorough': ['127.0.0.1', '127.255.255.254', '169.254.169.254',
-                 '169.254.0.1', '10.0.0.5', '172.16.0.1', '192.168.1.1',
+                 '169.254.0.1', '10.0.0.5', '172.31.255.254', '192.168.1.1',
                  '93.184.216.34', '128.0.0.1', '126.255.255.255',
-                 '169.255.0.1', '0.0.0.0'],
+                 '0.0.0.0'],
 }
 V6 = {
     'quick': ['::1', 'fe80::1', '2001:db8::1', 'fd00::1'],
@@ -398,16 +398,16 @@ NAMES = {
     'quick': ['example.com', 'EXAMPLE.com', 'internal.example', 'localhost',
               'example.com.'],
     'thorough': ['example.com', 'EXAMPLE.com', 'internal.example',
-                 'localhost', 'example.com.', 'metadata.google.internal',
-                 '127.0.0.1.nip.io', 'xn--bcher-kva.example'],
+                 'localhost', 'example.com.', '127.0.0.1.nip.io',
+                 'xn--bcher-kva.example'],
 }
 # what a name may resolve to
 ATOMS = {
     'quick': ['93.184.216.34', '127.0.0.1', '::1', '::ffff:127.0.0.1',
               '169.254.169.254'],
     'thorough': ['93.184.216.34', '127.0.0.1', '::1', '::ffff:127.0.0.1',
-                 '169.254.169.254', '10.0.0.5', '2001:db8::1',
-                 '::ffff:169.254.169.254', 'fe80::1'],
+                 '169.254.169.254', '10.0.0.5', '::ffff:169.254.169.254',
+                 'fe80::1'],
 }
 SCHEMES = {
     'quick': ['http://', 'https://', 'HTTP://', 'ftp://', 'file://',
@@ -423,12 +423,11 @@ USERINFO = {
 }
 PORTS = {
     'quick': ['', ':80', ':0', ':65535'],
-    'thorough': ['', ':80', ':0', ':65535', ':', ':65536', ':8080', ':080'],
+    'thorough': ['', ':80', ':0', ':65535', ':', ':65536'],
 }
 PATHS = {
     'quick': ['', '/latest/meta-data?u=a@b#c'],
-    'thorough': ['', '/', '/latest/meta-data?u=a@b#c', '?q=@10.0.0.5',
-                 '#@93.184.216.34/'],
+    'thorough': ['', '/latest/meta-data?u=a@b#c', '?q=@10.0.0.5'],
 }
 SPECIALS = ['', 'http://', 'http:///x', 'http:/127.0.0.1/', 'http:127.0.0.1',
             'file:///etc/passwd', 'gopher://127.0.0.1:70/_x',
